@@ -12,16 +12,19 @@ RULE = ("EVERY interleaving of two concurrent ClaimAffinity calls of two hosts o
 def run(ctx):
     design = [{"module": "MC_IPAM", "cfg": "MC_c22_quick.cfg", "thorough_cfg": "MC_c22.cfg", "workers": 4,
                "allow_zero": _ipam.ALLOW_ZERO, "timeout": 600, "thorough_timeout": 1700}]
-    _ipam.leg(ctx, BASE, "all-interleavings+seeded-concurrent", design=design,
-              gen={"module": "Gen_IPAM", "cfg": "Gen_claim2.cfg", "thorough_cfg": "Gen_claim3.cfg", "workers": 4,
-                   "timeout": 600, "thorough_timeout": 1700, "thorough_max": 30000},
-              n_random=(12, 400), mode="conc", nontrivial=_ipam.contended_claim, rule=RULE)
+    P, _ = _ipam.leg(ctx, BASE, "all-interleavings+seeded-concurrent", design=design,
+              gen={"module": "Gen_IPAM", "cfg": "Gen_claim2.cfg", "thorough_cfg": "Gen_claim2x.cfg", "workers": 4,
+                   "timeout": 600, "thorough_timeout": 1700, "thorough_max": 4000},
+              n_random=(12, 300), mode="conc", nontrivial=_ipam.contended_claim, rule=RULE)
+    orphan = dict(kind="orphan-block", classify=_ipam.classify_orphan, what="a block records an owner that holds no claim on it")
+    _ipam.handle_soft(ctx, P, **orphan)
     if ctx.violations:
         return
-    _ipam.leg(ctx, BASE, "tlc-walks",
+    P, _ = _ipam.leg(ctx, BASE, "tlc-walks",
               gen={"module": "Gen_IPAM", "cfg": "Gen_sim_c22.cfg", "simulate": {"num": 40, "depth": 120},
-                   "thorough_simulate": {"num": 2000, "depth": 120}, "timeout": 600, "thorough_timeout": 1500},
+                   "thorough_simulate": {"num": 1000, "depth": 120}, "timeout": 600, "thorough_timeout": 1500},
               nontrivial=_ipam.contended_claim, rule=RULE)
+    _ipam.handle_soft(ctx, P, **orphan)
 
 
 def selftest(ctx):
